@@ -57,6 +57,11 @@ CustodyMoves(cfg, S, S2) ==
 StillBad(cfg, S, bid) ==
   /\ HasId(S.m.borrows, bid) /\ ~S.x.ks /\ cfg.dutch
   /\ LET b == GetId(S.m.borrows, bid) IN ~b.liq /\ ~b.ho /\ HasId(S.m.lends, b.lend) /\ UnsafeWith(cfg, S.m, b, b.iT)
+(* ... and whose collateral pool holds the collateral's underlying coins (seizure moves them to the auction). NAMED DEVIATION: the   *)
+(* pool's coins can be lent or bridged out; UpdateLockedBorrows then fails and the wrapped sweep item is skipped block after block.   *)
+StillBadLiquid(cfg, S, bid) ==
+  /\ StillBad(cfg, S, bid)
+  /\ LET b == GetId(S.m.borrows, bid) IN PB(S.m, GetId(S.m.lends, b.lend).pool, b.ca).amt >= b.cin
 (* length of the list the borrow sweep walks (x/lend GetBorrows: all borrow ids of all pool statistics) *)
 SweepLen(S) == SumOver(S.m.stats, LAMBDA x : Len(x.bids))
 
